@@ -75,3 +75,11 @@ fn merge_deduplicate<'a, T: VecData<T> + 'a, C: Comparator<T>>(left: &[T], right
 }
 
 
+
+#[cfg(feature = "verif")]
+pub fn verif_merge_deduplicate<'a, T: VecData<T> + 'a, C: Comparator<T>>(
+    left: &[T],
+    right: &[T],
+) -> (Vec<T>, Vec<MergeOp>) {
+    merge_deduplicate::<T, C>(left, right)
+}
